@@ -57,6 +57,7 @@ type vCheck struct {
 	run         func(c *vCtx)
 	replay      func(c *vCtx, raw json.RawMessage)
 	companion   func(c *vCtx) // body of the -race companion (plain flavour)
+	raceBuild   bool          // this part is built with -race and its race reports are collected by the driver
 	also        []string      // ids of further parts (registered as checks "<ID>.<part>") merged into this check by the driver
 }
 
@@ -200,7 +201,7 @@ func VerifMain() {
 		if ck.shards != nil {
 			n = ck.shards(*tier)
 		}
-		json.NewEncoder(os.Stdout).Encode(map[string]any{"flavour": ck.flavour, "race": ck.race, "shards": n, "level": ck.level, "also": ck.also})
+		json.NewEncoder(os.Stdout).Encode(map[string]any{"flavour": ck.flavour, "race": ck.race, "shards": n, "level": ck.level, "also": ck.also, "race_build": ck.raceBuild})
 		return
 	}
 	log.SetOutput(io.Discard)
